@@ -81,12 +81,23 @@ Definition cmp_text (isteps : list rstep) (o : cmpop) (lit : list N) : list N :=
 (* a negated existence filter [?(!@ steps)] *)
 Definition neg_text (isteps : list rstep) : list N := [91; 63; 40; 33; 64] ++ render_steps isteps ++ [41; 93].
 (* a filter over a query in disjunctive form: [?(b && b ... || b && ... )], every b an existence test, its negation or a comparison *)
-Inductive bq := BE (isteps : list rstep) | BN (isteps : list rstep) | BC (isteps : list rstep) (o : cmpop) (lit : list N).
+(* a string, boolean or null literal as written: the quote and the plain body; the value and which of the three spellings *)
+Inductive litv := LStr (q : N) (body : list N) | LBool (b : bool) (sp : nat) | LNull (sp : nat).
+Definition litv_text (l : litv) : list N :=
+  match l with
+  | LStr q body => q :: body ++ [q]
+  | LBool true 0 => [116; 114; 117; 101] | LBool true 1 => [84; 114; 117; 101] | LBool true _ => [84; 82; 85; 69]
+  | LBool false 0 => [102; 97; 108; 115; 101] | LBool false 1 => [70; 97; 108; 115; 101] | LBool false _ => [70; 65; 76; 83; 69]
+  | LNull 0 => [110; 117; 108; 108] | LNull 1 => [78; 117; 108; 108] | LNull _ => [78; 85; 76; 76]
+  end.
+Inductive bq := BE (isteps : list rstep) | BN (isteps : list rstep) | BC (isteps : list rstep) (o : cmpop) (lit : list N)
+              | BL (isteps : list rstep) (ne : bool) (l : litv).
 Definition bq_text (b : bq) : list N :=
   match b with
   | BE i => 64 :: render_steps i
   | BN i => 33 :: 64 :: render_steps i
   | BC i o lit => 64 :: render_steps i ++ op_text o ++ lit
+  | BL i ne l => 64 :: render_steps i ++ (if ne then [33; 61] else [61; 61]) ++ litv_text l
   end.
 Definition and_text (c : list bq) : list N :=
   match c with [] => [] | b :: bs => bq_text b ++ flat_map (fun x => [38; 38] ++ bq_text x) bs end.
